@@ -566,6 +566,46 @@ func c15Hard(c *Ctx, limits, enforce *ssa.Function) {
 		}
 	}
 	r.Check(good, "R15-hard", "the timer is armed with the hard limit and halts this search", c.pos(enforce.Pos()), "", detail)
+	// ... for the clock of the side that is to move on the board being searched: at every call of the
+	// enforcement, the colour handed over is Board.Turn() itself (not its opponent, not a constant)
+	colIdx := -1
+	for i, p := range enforce.Params {
+		if n := namedOf(p.Type()); n != nil && n.Obj().Name() == "Color" {
+			colIdx = i
+		}
+	}
+	turnFn := c.find("pkg/board", "Board", "Turn")
+	nSites, sideBad := 0, ""
+	for _, fn := range c.P.AllFuncs {
+		if fn.Blocks == nil || !c.P.IsRepoFunc(fn) || strings.HasSuffix(c.P.Fset.Position(fn.Pos()).Filename, "_test.go") {
+			continue
+		}
+		for _, b := range fn.Blocks {
+			for _, ins := range b.Instrs {
+				call, ok := ins.(*ssa.Call)
+				if !ok || call.Call.StaticCallee() != enforce || colIdx < 0 || colIdx >= len(call.Call.Args) {
+					continue
+				}
+				nSites++
+				var defs []ssa.Value
+				resolveDefs(call.Call.Args[colIdx], map[ssa.Value]bool{}, &defs)
+				for _, dv := range defs {
+					tc, isCall := dv.(*ssa.Call)
+					if !isCall || turnFn == nil || tc.Call.StaticCallee() != turnFn {
+						sideBad = joinNonEmpty(sideBad, fmt.Sprintf("%s enforces the time control for %s at %s: the limits are computed from a clock that is not the mover's, so the hard limit can exceed the time the side to move has left", c.P.FuncName(fn), pathExpr(dv), c.pos(call.Pos())))
+					}
+				}
+				if len(defs) == 0 {
+					sideBad = joinNonEmpty(sideBad, "colour argument not identified at "+c.pos(call.Pos()))
+				}
+			}
+		}
+	}
+	if nSites == 0 {
+		r.Pass("R15-hard", "the time control is enforced for the side to move", c.pos(enforce.Pos()), "", "the enforcement has no caller with a colour argument: not interpreted")
+	} else {
+		r.Check(sideBad == "", "R15-hard", "the time control is enforced for the side to move", c.pos(enforce.Pos()), "", sideBad)
+	}
 }
 
 // parseScaled matches k*(R/D) (or R/D with k=1), commutatively.
